@@ -1,18 +1,35 @@
 use slotted_egraphs::*;
-use verif_harness::langs::A;
+use std::collections::BTreeSet;
+
+define_language! {
+    pub enum L { F(AppliedId) = "f", H(AppliedId, AppliedId) = "h", Symbol(Symbol), }
+}
+
+#[derive(Default)]
+struct Leaves;
+impl Analysis<L> for Leaves {
+    type Data = BTreeSet<String>;
+    fn make(eg: &EGraph<L, Self>, enode: &L) -> Self::Data {
+        let mut s = BTreeSet::new();
+        if let L::Symbol(x) = enode { s.insert(format!("{x:?}")); }
+        for x in enode.applied_id_occurrences() { s.extend(eg.analysis_data(x.id).iter().cloned()); }
+        s
+    }
+    fn merge(mut l: Self::Data, r: Self::Data) -> Self::Data { l.extend(r); l }
+}
+
+fn add(eg: &mut EGraph<L, Leaves>, s: &str) -> AppliedId { eg.add_expr(RecExpr::parse(s).unwrap()) }
+
 fn main() {
-    // D17: b[x := x+1] where the e-graph knows (x+1)+2 = x
-    let ext = std::env::var("EXT").is_ok();
-    let mut eg: EGraph<A> = if ext { EGraph::with_subst_method::<ExtractionSubst>(()) } else { EGraph::new(()) };
-    let start: RecExpr<A> = RecExpr::parse("(sum $1 (mul (add (var $1) 2) (mul (var $1) (var $1))))").unwrap();
-    let s = eg.add_expr(start);
-    let a = eg.add_expr(RecExpr::parse("(add (add (var $1) 1) 2)").unwrap());
-    let v = eg.add_expr(RecExpr::parse("(var $1)").unwrap());
-    eg.union(&a, &v); // true mod 3
-    let rw: Rewrite<A> = Rewrite::new("sum-shift", "(sum $1 ?a)", "(sum $1 ?a[(var $1) := (add (var $1) 1)])");
-    apply_rewrites(&mut eg, &[rw]);
-    let good = lookup_rec_expr(&RecExpr::parse("(sum $1 (mul (var $1) (mul (add (var $1) 1) (add (var $1) 1))))").unwrap(), &eg);
-    let bad = lookup_rec_expr(&RecExpr::parse("(sum $1 (mul (add (var $1) 1) (mul (add (var $1) 1) (add (var $1) 1))))").unwrap(), &eg);
-    println!("correct instance represented and equal: {:?}", good.map(|g| eg.eq(&g, &s)));
-    println!("WRONG instance (x+1)^3 represented and equal: {:?}", bad.map(|g| eg.eq(&g, &s)));
+    let mut eg = EGraph::<L, Leaves>::default();
+    let p = add(&mut eg, "p");
+    let n = add(&mut eg, "(h p c)");
+    eg.union(&p, &n); // P = {p, h(P, C)}
+    let c = add(&mut eg, "c");
+    let d = add(&mut eg, "d");
+    add(&mut eg, "(f d)");
+    add(&mut eg, "(h d d)"); // D is the bigger class, C is merged into D
+    eg.union(&c, &d); // h(P, C) is re-made, improves P, re-queues itself under the stale shape
+    println!("data of P: {:?}", eg.analysis_data(p.id));
+    eg.check();
 }
